@@ -370,6 +370,93 @@ def ipowRoute (tensorOverride : Bool) (p : Rat) : IpowRoute :=
   if p.den = 1 then .generic p.num
   else if tensorOverride then .npPower else .raises
 
+/-! ## The tests in front of the operators (`LinearSpaceElement.__add__` … `__itruediv__`)
+
+Before any arithmetic every operator method classifies `other`: delegate to an operand with a
+higher `__array_priority__`, refuse when the space has no field, take the element or the scalar
+branch, refuse foreign elements (`NotImplemented`, in place `TypeError`), otherwise try to
+coerce an array-like through `space.element`. The chains themselves are EXTRACTED
+(`Gen/OpFront.lean`); here are their language, their evaluation and the specification. -/
+
+inductive Meth
+  | add | radd | sub | rsub | mul | rmul | truediv | rtruediv | iadd | isub | imul | itruediv
+  deriving Repr, DecidableEq
+
+inductive OTest | prio | noField | inSpace | isElem | inField | noOne
+  deriving Repr, DecidableEq
+
+/-- Where the call ends up: another object's method, `NotImplemented`, `TypeError`, or one of
+the branches that call `space.lincomb / multiply / divide` (modelled by `Op.exec`). -/
+inductive ORoute
+  | delegate (m : Meth) | notimpl | typeerror | write
+  deriving Repr, DecidableEq
+
+inductive OStmt
+  | ret (r : ORoute)
+  | ite (t : OTest) (a b : OStmt)
+  | coerce (fail ok : OStmt)   -- try: other = self.space.element(other) / except: fail / else: ok
+  | reenter (m : Meth)         -- return self.__m__(other)
+  deriving Repr
+
+/-- What the tests see: of `other` (`prio`: its `__array_priority__` exceeds the element's;
+`isElem`: it is a `LinearSpaceElement`; `coercible`: `space.element(other)` succeeds) and of
+the space (`noField`: `field is None`; `noOne`: it has no `one`). -/
+structure OFacts where
+  prio : Bool
+  noField : Bool
+  inSpace : Bool
+  isElem : Bool
+  inField : Bool
+  noOne : Bool
+  coercible : Bool
+  deriving Repr, DecidableEq
+
+def OTest.eval (f : OFacts) : OTest → Bool
+  | .prio => f.prio | .noField => f.noField | .inSpace => f.inSpace | .isElem => f.isElem
+  | .inField => f.inField | .noOne => f.noOne
+
+/-- Evaluate a chain (fuel counts statements; `none` = fuel exhausted). After a successful
+coercion `other` IS an element of the space. -/
+def OStmt.eval (tbl : Meth → OStmt) : Nat → OFacts → OStmt → Option ORoute
+  | 0, _, _ => none
+  | _ + 1, _, .ret r => some r
+  | n + 1, f, .ite t a b => if t.eval f then OStmt.eval tbl n f a else OStmt.eval tbl n f b
+  | n + 1, f, .coerce fail ok =>
+      if f.coercible then
+        OStmt.eval tbl n { f with prio := false, inSpace := true, isElem := true,
+                                  inField := false, coercible := false } ok
+      else OStmt.eval tbl n f fail
+  | n + 1, f, .reenter m => OStmt.eval tbl n f (tbl m)
+
+def Meth.inPlace : Meth → Bool
+  | .iadd | .isub | .imul | .itruediv => true
+  | _ => false
+
+/-- The scalar branch of these methods broadcasts through `space.one()`. -/
+def Meth.needsOne : Meth → Bool
+  | .add | .radd | .sub | .rsub | .rtruediv | .iadd | .isub => true
+  | _ => false
+
+/-- The method of a higher-priority operand that gets the call. -/
+def Meth.delegateTo : Meth → Option Meth
+  | .add => some .radd | .radd => some .add | .sub => some .rsub | .rsub => some .sub
+  | .mul => some .rmul | .rmul => some .mul | .truediv => some .rtruediv
+  | .rtruediv => some .truediv
+  | _ => none
+
+/-- Specification of the front of every operator: what must happen for each kind of operand. -/
+def opFront (m : Meth) (f : OFacts) : ORoute :=
+  let refuse : ORoute := if m.inPlace then .typeerror else .notimpl
+  match (if f.prio then m.delegateTo else none) with
+  | some d => .delegate d
+  | none =>
+    if f.noField then .notimpl
+    else if f.inSpace then .write
+    else if f.isElem then refuse
+    else if f.inField then (if m.needsOne && f.noOne then refuse else .write)
+    else if f.coercible then .write
+    else refuse
+
 /-! ## `LinearSpace.lincomb` argument checks (front end), in source order -/
 
 inductive FrontOutcome
